@@ -1,5 +1,6 @@
 /- The fact values the C09 theorems are proved for (and the oracle runs the model with). -/
 import EinoV.Model.C09
+import EinoV.Model.C09Err
 namespace EinoV.Expected.C09
 def runAllocsChannelManager : Bool := true
 def channelsBuiltPerRun : Bool := true
@@ -12,6 +13,10 @@ def runCreatesStateViaRunCtx : Bool := true
 def sharedWrites : List String := []
 def extractOptionCopies : Bool := true
 def toolsNodeRunPathWrites : List String := []
+def storedRunErrors : List String := []
+def errorPathMutators : List String :=
+  ["compose/error.go:wrapGraphNodeError:ie.nodePath.path", "compose/error.go:wrapStreamWrapperError:ie.streamWrapperPath"]
+def runErrorsFresh : Bool := EinoV.C09.Err.freshOf storedRunErrors
 def alloc : EinoV.C09.Alloc :=
   EinoV.C09.allocOf runAllocsChannelManager channelsBuiltPerRun channelManagerFieldsFresh
     runAllocsTaskManager taskManagerQueueFresh runBuildsOptMap runCreatesStateViaRunCtx
